@@ -2,20 +2,25 @@ import FitProps.WriterIntegrityLemmas
 import FitModel.Integrity
 import FitModel.Generated.WireConsts
 import FitProps.C09
+import FitProps.WriterCrashLemmas
 /-!
 # C11 — Destination failures surface as errors; incomplete output is never a valid file
 
 Fault model: `Writer.Faults` — the k-th operation on the destination (Write, WriteAt, Seek — also the ones the buffered
 writer issues when it flushes) fails after taking at most j bytes, for ANY set of (k, j). A crash "the first k operations
 and j bytes of the next write took effect" is the final state of the run under the schedule "operation k takes j bytes and
-fails": the encoder stops issuing operations at the first failure. (That link is checked, not proved: every sweep of
-family enc-faults replays the healthy run's operation sequence up to (k, j) and compares it with the faulted run — on the
-real encoder and on the model.)
+fails": the encoder stops issuing operations at the first failure. That link is PROVED for the model
+(`C11_fault_is_crash_prefix`, `_stream`, `C11_call_fault_is_crash_prefix`: from any encoder state, every kind, buffer size,
+chain, batch and stream; lemmas in FitProps/WriterCrashLemmas.lean) and still re-checked per fault point: every sweep of
+family enc-faults replays the healthy run's operation sequence up to (k, j) (`Dest.run (crashOps k j ops)`, the very
+definitions of the theorem) and compares it with the faulted run — on the real encoder and on the model.
 
 PROPERTY THEOREMS (audited by ./check): C11_write_error_surfaces, C11_error_surfaces_batch, C11_success_means_no_fault,
 C11_error_surfaces_stream, C11_call_error_surfaces (from any state, any validator, call by call), C11_consts (obligation on
 the regenerated profile version), C11_prefix_never_valid, C11_prefix_never_valid_stream, C11_stale_header_witness (the
-finding F13 / KF-C11-1, repaired in /repo f65e050; the theorems speak about both variants through `StreamCfg`).
+finding F13 / KF-C11-1, repaired in /repo f65e050; the theorems speak about both variants through `StreamCfg`),
+C11_fault_is_crash_prefix, C11_fault_is_crash_prefix_stream, C11_call_fault_is_crash_prefix, C11_crash_prefix_never_valid
+(at the end of the file).
 The model's encoder has no panic outcome (its result type is writer state × success); a panic of the implementation
 under a fault is a disagreement of the `enc-faults` family.
 -/
@@ -209,6 +214,112 @@ theorem C11_stale_header_witness :
     (Witness.run ⟨false⟩).1.e.w.d.content ≠ encodeChain Witness.o [(Witness.h, [Witness.m1])] ∧
     (Witness.run ⟨false⟩).1.e.w.d.content ≠ encodeChain Witness.o [(Witness.h, [Witness.m1]), (Witness.h, [Witness.m1, Witness.m2])] ∧
     Fit.Integrity.checkIntegrity (Witness.run ⟨true⟩).1.e.w.d.content = .err .notFit 1 := by
+  decide +kernel
+
+/-! ### the single-fault run IS the crash state of the healthy run (proved; also re-checked per sweep by the driver) -/
+
+/-- FAULT SCHEDULE ⇒ CRASH PREFIX, batch. From ANY state `e` of the encoder — every destination kind (plain writer,
+`WriteSeeker`, `WriterAt`, both), every write-buffer size (0 = no bufio layer), anything buffered, any sticky error, any
+options, any destination content/position (no assumption on it at all) — and for every chain `fs` of FIT values: let
+`ops` be the operations the destination sees in the healthy run (the healthy destination IS the replay of `ops`:
+content, position and log). Under the schedule "operation `k` takes `j` bytes and fails" (`k` counted as the
+destination counts, from its log) the destination ends up as the replay of `crashOps … ops` — the first operations in
+full, operation `k` cut to `j` bytes and logged as failed (a `Seek` just fails; a failed `WriteAt` keeps its `j`
+bytes at its offset), and NOTHING after it — and the chaining loop reports an error. When the healthy run never
+reaches operation `k` the two runs are identical. -/
+theorem C11_fault_is_crash_prefix (k j : Nat) (o : Opts) (e : Enc) (fs : List FitIn) (hk : e.w.d.log.length ≤ k) :
+    ∃ ops : List DOp,
+      (encodeChainW noFault o e fs).1.w.d = e.w.d.run ops ∧
+      (encodeChainW (single k j) o e fs).1.w.d = e.w.d.run (crashOps (k - e.w.d.log.length) j ops) ∧
+      (k - e.w.d.log.length < ops.length → (encodeChainW (single k j) o e fs).2.2 = false) ∧
+      (ops.length ≤ k - e.w.d.log.length → encodeChainW (single k j) o e fs = encodeChainW noFault o e fs) :=
+  crash_of_sim (dst := fun r : Enc × Nat × Bool => r.1.w.d) (ok := fun r => r.2.2) e.w.d hk
+    (encodeChainW_sim k j o fs e hk) (encodeChainW_ext _ o fs e) (encodeChainW_ext _ o fs e)
+
+/-- FAULT SCHEDULE ⇒ CRASH PREFIX, stream: the same for series of `WriteMessage` … `SequenceCompleted` from ANY state of
+the stream encoder (as pinned and as repaired), empty sequences included. -/
+theorem C11_fault_is_crash_prefix_stream (k j : Nat) (c : StreamCfg) (o : Opts) (h : Fit.Wire.Hdr) (s : Stream)
+    (mss : List (List WMsg)) (hk : s.e.w.d.log.length ≤ k) :
+    ∃ ops : List DOp,
+      (Stream.chain noFault c o h s mss).1.e.w.d = s.e.w.d.run ops ∧
+      (Stream.chain (single k j) c o h s mss).1.e.w.d = s.e.w.d.run (crashOps (k - s.e.w.d.log.length) j ops) ∧
+      (k - s.e.w.d.log.length < ops.length → (Stream.chain (single k j) c o h s mss).2.2 = false) ∧
+      (ops.length ≤ k - s.e.w.d.log.length → Stream.chain (single k j) c o h s mss = Stream.chain noFault c o h s mss) :=
+  crash_of_sim (dst := fun r : Stream × Nat × Bool => r.1.e.w.d) (ok := fun r => r.2.2) s.e.w.d hk
+    (stream_chain_sim k j c o h mss s hk) (stream_chain_ext _ c o h mss s) (stream_chain_ext _ c o h mss s)
+
+/-- … and call by call: one `Encode`, one `WriteMessage`, one `SequenceCompleted`, from any state. -/
+theorem C11_call_fault_is_crash_prefix (k j : Nat) (c : StreamCfg) (o : Opts) (h : Fit.Wire.Hdr) :
+    (∀ (e : Enc) (f : FitIn), e.w.d.log.length ≤ k → ∃ ops : List DOp,
+      (encode noFault o e f).1.w.d = e.w.d.run ops ∧
+      (encode (single k j) o e f).1.w.d = e.w.d.run (crashOps (k - e.w.d.log.length) j ops) ∧
+      (k - e.w.d.log.length < ops.length → (encode (single k j) o e f).2 = false) ∧
+      (ops.length ≤ k - e.w.d.log.length → encode (single k j) o e f = encode noFault o e f)) ∧
+    (∀ (s : Stream) (m : WMsg), s.e.w.d.log.length ≤ k → ∃ ops : List DOp,
+      (s.writeMessage noFault o h m).1.e.w.d = s.e.w.d.run ops ∧
+      (s.writeMessage (single k j) o h m).1.e.w.d = s.e.w.d.run (crashOps (k - s.e.w.d.log.length) j ops) ∧
+      (k - s.e.w.d.log.length < ops.length → (s.writeMessage (single k j) o h m).2 = false) ∧
+      (ops.length ≤ k - s.e.w.d.log.length → s.writeMessage (single k j) o h m = s.writeMessage noFault o h m)) ∧
+    (∀ (s : Stream), s.e.w.d.log.length ≤ k → ∃ ops : List DOp,
+      (s.sequenceCompleted noFault c o h).1.e.w.d = s.e.w.d.run ops ∧
+      (s.sequenceCompleted (single k j) c o h).1.e.w.d = s.e.w.d.run (crashOps (k - s.e.w.d.log.length) j ops) ∧
+      (k - s.e.w.d.log.length < ops.length → (s.sequenceCompleted (single k j) c o h).2 = false) ∧
+      (ops.length ≤ k - s.e.w.d.log.length → s.sequenceCompleted (single k j) c o h = s.sequenceCompleted noFault c o h)) := by
+  refine ⟨fun e f hk => ?_, fun s m hk => ?_, fun s hk => ?_⟩
+  · exact crash_of_sim (dst := fun r : Enc × Bool => r.1.w.d) (ok := fun r => r.2) e.w.d hk
+      (encode_sim k j o e f hk) (encode_ext _ o e f) (encode_ext _ o e f)
+  · exact crash_of_sim (dst := fun r : Stream × Bool => r.1.e.w.d) (ok := fun r => r.2) s.e.w.d hk
+      (writeMessage_sim k j o h s m hk) (writeMessage_ext _ o h s m) (writeMessage_ext _ o h s m)
+  · exact crash_of_sim (dst := fun r : Stream × Bool => r.1.e.w.d) (ok := fun r => r.2) s.e.w.d hk
+      (sequenceCompleted_sim k j c o h s hk) (sequenceCompleted_ext _ c o h s) (sequenceCompleted_ext _ c o h s)
+
+/-- CRASH STATES OF THE HEALTHY RUN ARE NEVER VALID FILES (the two halves together): for default headers, any kind and
+buffer size, on a destination that is empty or holds an accepted stream and has seen no operation yet: take the operation
+sequence `ops` of the HEALTHY run; the destination obtained by replaying its first `k` operations in full and `j` bytes
+of operation `k` is accepted by the integrity check only if its content is `d₀` followed by the first `m` complete
+sequences — and such a crash state is what the faulted run leaves, with an error returned. -/
+theorem C11_crash_prefix_never_valid (k j : Nat) (o : Opts) (kind : Kind) (size : Nat) (d₀ : Dest) (n₀ : Nat) (fs : List FitIn)
+    (hlog : d₀.log = []) (hend : d₀.pos = d₀.content.length) (hown : kind = .at → n₀ = d₀.content.length)
+    (hbase : d₀.content = [] ∨ Acc d₀.content) (hz : ∀ f ∈ fs, ZeroHdr o f) :
+    ∃ ops : List DOp,
+      (encodeChainW noFault o (Fit.C09.encOn o kind size d₀ n₀) fs).1.w.d = d₀.run ops ∧
+      (encodeChainW (single k j) o (Fit.C09.encOn o kind size d₀ n₀) fs).1.w.d = d₀.run (crashOps k j ops) ∧
+      (k < ops.length → (encodeChainW (single k j) o (Fit.C09.encOn o kind size d₀ n₀) fs).2.2 = false) ∧
+      (Acc (d₀.run (crashOps k j ops)).content →
+        ∃ m, m ≤ fs.length ∧ (d₀.run (crashOps k j ops)).content = d₀.content ++ encodeChain o (fitsOf (fs.take m))) := by
+  have hk : (Fit.C09.encOn o kind size d₀ n₀).w.d.log.length ≤ k := by
+    show d₀.log.length ≤ k
+    rw [hlog]; exact Nat.zero_le _
+  obtain ⟨ops, h1, h2, h3, _⟩ := C11_fault_is_crash_prefix k j o (Fit.C09.encOn o kind size d₀ n₀) fs hk
+  have hd : (Fit.C09.encOn o kind size d₀ n₀).w.d = d₀ := rfl
+  have h0 : k - d₀.log.length = k := by rw [hlog]; rfl
+  rw [hd] at h1 h2 h3
+  rw [h0] at h2 h3
+  refine ⟨ops, h1, h2, h3, fun hacc => ?_⟩
+  rw [← h2] at hacc ⊢
+  exact C11_prefix_never_valid (single k j) o kind size d₀ n₀ fs hend hown hbase hz hacc
+
+/-- the theorem is not vacuous: a WriterAt destination behind a 4-byte write buffer, one message; the healthy run issues
+4 operations (header and definition written through, data record + CRC flushed together, `WriteAt` of the header); under
+"operation 3 takes 2 bytes and fails" the destination log is the first three operations and the `WriteAt` cut to 2 bytes
+and failed, the content is the replay (27 bytes), and `Encode` reports the error -/
+example :
+    (encodeChainW noFault Witness.o (Enc.new Witness.o .at 4 ⟨[], 0, []⟩) [⟨Witness.h, 0, [Witness.m1]⟩]).1.w.d.log.length = 4 ∧
+    (encodeChainW (single 3 2) Witness.o (Enc.new Witness.o .at 4 ⟨[], 0, []⟩) [⟨Witness.h, 0, [Witness.m1]⟩]).1.w.d.log.reverse =
+      crashOps 3 2 (encodeChainW noFault Witness.o (Enc.new Witness.o .at 4 ⟨[], 0, []⟩) [⟨Witness.h, 0, [Witness.m1]⟩]).1.w.d.log.reverse ∧
+    (encodeChainW (single 3 2) Witness.o (Enc.new Witness.o .at 4 ⟨[], 0, []⟩) [⟨Witness.h, 0, [Witness.m1]⟩]).2.2 = false ∧
+    (encodeChainW (single 3 2) Witness.o (Enc.new Witness.o .at 4 ⟨[], 0, []⟩) [⟨Witness.h, 0, [Witness.m1]⟩]).1.w.d.content.length = 27 := by
+  decide +kernel
+
+/-- … and a failing `Seek`: an unbuffered WriteSeeker, the seek back of the header rewrite (operation 4) fails — the log is
+the four writes and the failed seek, nothing after it, error returned -/
+example :
+    (encodeChainW noFault Witness.o (Enc.new Witness.o .seek 0 ⟨[], 0, []⟩) [⟨Witness.h, 0, [Witness.m1]⟩]).1.w.d.log.length = 7 ∧
+    (encodeChainW (single 4 0) Witness.o (Enc.new Witness.o .seek 0 ⟨[], 0, []⟩) [⟨Witness.h, 0, [Witness.m1]⟩]).1.w.d.log.reverse =
+      crashOps 4 0 (encodeChainW noFault Witness.o (Enc.new Witness.o .seek 0 ⟨[], 0, []⟩) [⟨Witness.h, 0, [Witness.m1]⟩]).1.w.d.log.reverse ∧
+    (encodeChainW (single 4 0) Witness.o (Enc.new Witness.o .seek 0 ⟨[], 0, []⟩) [⟨Witness.h, 0, [Witness.m1]⟩]).1.w.d.log.head? =
+      some (.seek (-27) false) ∧
+    (encodeChainW (single 4 0) Witness.o (Enc.new Witness.o .seek 0 ⟨[], 0, []⟩) [⟨Witness.h, 0, [Witness.m1]⟩]).2.2 = false := by
   decide +kernel
 
 end Fit.C11
